@@ -10,6 +10,7 @@ require (
 	github.com/nats-io/nats.go v1.31.0
 	github.com/simpleiot/simpleiot v0.0.0
 	google.golang.org/protobuf v1.27.1
+	modernc.org/sqlite v1.18.0
 )
 
 require (
@@ -65,7 +66,6 @@ require (
 	modernc.org/libc v1.16.7 // indirect
 	modernc.org/mathutil v1.4.1 // indirect
 	modernc.org/memory v1.1.1 // indirect
-	modernc.org/sqlite v1.18.0 // indirect
 )
 
 replace github.com/simpleiot/simpleiot => /repo
